@@ -248,10 +248,19 @@ class G2:
 class Layout:
     """layout choices the grammar declares insignificant"""
 
+    @property
+    def eol(self):
+        if self.mixed:
+            return self.r.choice(["\n", "\r\n"])
+        return self._eol
+
     def __init__(self, rng, plain=False):
         self.r = rng
         self.plain = plain
-        self.eol = "\n" if plain or rng.random() < 0.8 else "\r\n"
+        self._eol = "\n" if plain or rng.random() < 0.8 else "\r\n"
+        # MIXED line ends: every line break of the file picks LF or CRLF on its own (a comment block, a multi-line
+        # pattern or a variant list whose lines do not end alike)
+        self.mixed = (not plain) and rng.random() < 0.06
         self.base_indent = 4 if plain else rng.choice([1, 2, 4, 4, 7])
         self.final_newline = True if plain else rng.random() < 0.85
 
@@ -438,8 +447,8 @@ def render_resource(res, L):
             for _ in range(nb):
                 # a blank line may carry spaces (still a blank line: comments must not attach across it)
                 out += ("" if L.plain else " " * L.r.choice([0, 0, 0, 1, 3])) + L.eol
-    if not L.final_newline and out.endswith(L.eol) and not (res and res[-1][0] == "comment" and res[-1][2][-1] == ""):
-        out = out[: -len(L.eol)]
+    if not L.final_newline and out.endswith("\n") and not (res and res[-1][0] == "comment" and res[-1][2][-1] == ""):
+        out = out[:-2] if out.endswith("\r\n") else out[:-1]
     return out, "(res%s)" % "".join(" " + s for s in sx)
 
 
